@@ -1821,9 +1821,14 @@ class Method:
                 if not f:
                     # Special case for an empty signature
                     continue
-                name = f.strip()
-                field = self.input.get_field(*name.split("."))
-                name += "_" if field.name != field.field_pb.name else ""
+                path = f.strip().split(".")
+                field = self.input.get_field(*path)
+                # The key is the attribute path on the request: every
+                # segment is the (possibly disambiguated) name of its field.
+                name = ".".join(
+                    self.input.get_field(*path[: i + 1]).name
+                    for i in range(len(path))
+                )
                 if cross_pkg_request and not field.is_primitive:
                     # This is not a proto-plus wrapped message type,
                     # and setting a non-primitive field directly is verboten.
